@@ -217,7 +217,9 @@ func (s *TimerQueue) tick(t time.Time) {
 
 // 返回触发的timer列表
 func (s *TimerQueue) trigger(now int64) []*timerNode {
-	var maxId = s.nextId
+	s.guard.Lock()
+	var maxId = s.nextId // written by nextID() under the mutex
+	s.guard.Unlock()
 	var expires []*timerNode
 	for len(s.timers) > 0 {
 		var node = s.timers[0] // peek first item of heap
